@@ -40,7 +40,7 @@ SIG_CLASSES = ["length", "padded", "zero-at-48", "flag-grid", "non-subgroup", "t
 
 def required_classes(tier):
     out = ["key:" + c for c in KEY_CLASSES] + ["sig:" + c for c in SIG_CLASSES]
-    out += ["list-shapes", "key:valid-plus-small-order", "key:identity-among-honest", "key:cancelling-set", "ep:KeyValidate", "ep:Verify", "ep:PopVerify", "ep:AggregateVerify", "ep:FastAggregateVerify", "valid-call-reaching-pairing", "list-position"]
+    out += ["sentinels:before", "sentinels:after", "soak:distinct-keys", "key:valid-keys-that-cancel", "list-shapes", "key:valid-plus-small-order", "key:identity-among-honest", "key:cancelling-set", "ep:KeyValidate", "ep:Verify", "ep:PopVerify", "ep:AggregateVerify", "ep:FastAggregateVerify", "valid-call-reaching-pairing", "list-position"]
     return out
 
 
@@ -168,6 +168,28 @@ def run(rec):
             rec.case("%s:%s" % (kind, cls), (kind, data), nontrivial=data not in SUITE_FIXED,
                      sample={"input": kind, "class": cls, "len": len(data), "head": data[:8]})
 
+        # ---- sentinel probes: a fixed set of cheap hostile calls, made at the start of the round and again at its end,
+        #      after everything else has happened in this process (state left behind by earlier calls must not change them)
+        idk0, infsig = Z.enc_g1(None), Z.enc_g2(None)
+
+        def sentinels(tag):
+            rec.case("sentinels:" + tag, None, nontrivial=False)
+            for Sx in (S, suites["basic"], Pp):
+                call(Sx.KeyValidate, idk0)
+                call(Sx.KeyValidate, pk)
+                call(Sx.Verify, idk0, msg, infsig)
+                call(Sx.AggregateVerify, [pk, idk0], [msg, msg2], sig)
+            call(Pp.PopVerify, idk0, infsig)
+            call(Pp.FastAggregateVerify, [idk0], msg, infsig)
+            call(S.Verify, pk, msg, sig)
+        sentinels("before")
+        # valid keys that cancel: pk and -pk (each passes KeyValidate, their sum is the identity)
+        pk_neg = bmon.register_key(R - sk)
+        rec.case("key:valid-keys-that-cancel", ("cancel-valid", pk), sample={"input": "FastAggregateVerify([pk, -pk], ...)"})
+        call(Pp.FastAggregateVerify, [pk, pk_neg], msg, infsig)
+        call(Pp.FastAggregateVerify, [pk, pk_neg], msg, sig_pop)
+        call(Pp.FastAggregateVerify, [pk, pk_neg, pk2], msg, bmon.m_sign("pop", sk2, msg))
+        call(S.AggregateVerify, [pk, pk_neg], [msg, msg2], MB.aggregate([sig, bmon.m_sign(suite, R - sk, msg2)]))
         # ---- fully valid calls: the pairing is reached, M-pair-arg observes library-derived and caller-derived arguments
         rec.case("valid-call-reaching-pairing", ("valid", suite, pk, msg))
         rec.case("key:valid", None, nontrivial=False)
@@ -272,6 +294,16 @@ def run(rec):
             s = rng.choice(hs)[1]
             call(S.Verify, k, msg, s)
             call(S.AggregateVerify, [k], [msg], s)
+        # ---- soak: many DISTINCT keys through KeyValidate (bounded memo tables recycle their slots), then the sentinels again
+        nsoak = 1300 if quick else 6000
+        rec.case("soak:distinct-keys", None, nontrivial=False)
+        soak_rng = __import__("random").Random(rec.seed * 31 + rec.shard)
+        for j in range(nsoak):
+            b = bytearray(soak_rng.randbytes(48))
+            if j % 3 == 0:
+                b[0] = (b[0] & 0x1F) | 0x80
+            call(S.KeyValidate, bytes(b))
+        sentinels("after")
         # the existing suite's fixed malformed strings (trivial by the rule, still exercised)
         for k in (b"\x11" * 48, b"\x40" + b"\x00" * 47):
             note("key", "random", k)
